@@ -477,8 +477,7 @@ class MiniServer:
         threading.Thread(target=self.udp_loop, daemon=True).start()
 
     @staticmethod
-    def serial_of(wire):
-        q = dns.message.from_wire(wire)
+    def serial_of(q):
         if q.question[0].rdtype == dns.rdatatype.AXFR:
             return None
         return q.authority[0][0].serial
@@ -500,15 +499,41 @@ class MiniServer:
             d += x
         return d
 
+    @staticmethod
+    def render(q, msgs, multi):
+        """the wires of the scripted messages; TSIG-signed (per message flag, default signed) iff the query was"""
+        if not q.had_tsig:
+            return [wire_of(w[:3]) for w in msgs]
+        out, ctx, first = [], None, True
+        for w in msgs:
+            m = build_msg(w)
+            m.id = q.id
+            if len(w) < 4 or w[3]:
+                m.use_tsig(TSIG_KEYRING)
+                if first:
+                    m.request_mac = q.mac
+                if multi:
+                    wire = m.to_wire(multi=True, tsig_ctx=ctx) if ctx is not None else m.to_wire(multi=True)
+                    ctx = m.tsig_ctx
+                else:
+                    wire = m.to_wire()
+            else:
+                wire = m.to_wire()
+                if ctx is not None:
+                    ctx.update(wire)
+            first = False
+            out.append(wire)
+        return out
+
     def tcp_loop(self):
         while True:
             c, _ = self.tcp.accept()
             try:
                 (l,) = struct.unpack("!H", self.recvn(c, 2))
-                ser = self.serial_of(self.recvn(c, l))
+                q = dns.message.from_wire(self.recvn(c, l), keyring=TSIG_KEYRING)
+                ser = self.serial_of(q)
                 self.seen.append(("tcp", ser))
-                for w in self.rows(self.script["tcp"], ser):
-                    wire = wire_of(w)
+                for wire in self.render(q, self.rows(self.script["tcp"], ser), True):
                     c.sendall(struct.pack("!H", len(wire)) + wire)
             except Exception:  # noqa
                 pass
@@ -519,11 +544,12 @@ class MiniServer:
         while True:
             data, addr = self.udp.recvfrom(65535)
             try:
-                ser = self.serial_of(data)
+                q = dns.message.from_wire(data, keyring=TSIG_KEYRING)
+                ser = self.serial_of(q)
                 self.seen.append(("udp", ser))
                 ms = self.rows(self.script["udp"], ser)
                 # one datagram (an empty one when nothing is scripted, so that the client never waits)
-                self.udp.sendto(wire_of(ms[0]) if ms else b"", addr)
+                self.udp.sendto(self.render(q, ms[:1], False)[0] if ms else b"", addr)
             except Exception:  # noqa
                 pass
 
@@ -552,6 +578,29 @@ def run_top(case):
     code = 0
     try:
         dns.query.inbound_xfr("127.0.0.1", z, port=_server.port, timeout=5, lifetime=5,
+                              udp_mode=dns.query.UDPMode(mode))
+    except Exception as e:  # noqa
+        c = exc_code(e)
+        if c.code >= 800:
+            return c
+        code = c.code
+    return [code, dump_checked(z, rel)]
+
+
+def run_top_query(case):
+    """dns.query.inbound_xfr with a query made by dns.xfr.make_query(zone, serial=..., keyring=...)"""
+    _, zk, rel, mode, z0, tu, tt, qser, kr = case[:9]
+    _server = get_server()
+    _server.script = {"udp": tu, "tcp": tt}
+    _server.seen = []
+    z = build_zone(zk % 3, rel, z0)
+    code = 0
+    try:
+        if kr:
+            q, _s = dns.xfr.make_query(z, serial=qser, keyring=TSIG_KEYRING, keyname=dns.name.from_text("xfr-key."))
+        else:
+            q, _s = dns.xfr.make_query(z, serial=qser)
+        dns.query.inbound_xfr("127.0.0.1", z, query=q, port=_server.port, timeout=5, lifetime=5,
                               udp_mode=dns.query.UDPMode(mode))
     except Exception as e:  # noqa
         c = exc_code(e)
@@ -685,6 +734,8 @@ def impl(case):
             return run_legacy(case)
         if op == 11:
             return run_tsig(case)
+        if op == 12:
+            return run_top_query(case)
         if op == 10:
             q = dns.message.make_query(ORIGIN, case[1])
             if case[2] is not None:
@@ -1450,6 +1501,56 @@ def top_cases(ctx, rng, n):
         yield "top", [8, zk, rel, mode, zdump(z0), tu, tt, [exp, zdump(chain[-1])]]
 
 
+def top_query_cases(ctx, rng, n):
+    """dns.query.inbound_xfr with an explicit query: serial argument None / 0 / the zone's / an older one the
+    server has no history for / out of range; with and without a TSIG keyring; the three UDP modes"""
+    for _ in range(n):
+        zk, rel = rng.randrange(3), rng.randrange(2)
+        chain = gen_chain(rng, rng.choice([1, 2]), size=rng.choice([1, 2, 4]))
+        z0 = chain[0]
+        s0 = soa_id(z0) & 0xFFFFFFFF
+        kr = rng.randrange(2)
+        older = (s0 - 1) % T32
+        qser = rng.choice([None, 0, 0, s0, s0, older, older] + ([T32, -1] if rng.random() < 0.15 else []))
+        if qser == 0 and s0 == 0:
+            continue
+        if qser is not None and qser != 0 and not (0 < qser < T32):
+            yield "topq-bad-serial", [12, zk, rel, 0, zdump(z0), [], [], qser, kr, [MUSTERR, None]]
+            continue
+        if older == 0 and qser == older:
+            continue
+        base = None if qser is None else (s0 if qser in (0, s0) else qser)
+        rdt = AXFR if base is None else IXFR
+        sg = lambda msgs, flags=None: [m + [1 if flags is None else flags[i]] for i, m in enumerate(msgs)]
+        ix = ixfr_stream(rng, chain, shuffle=rng.random() < 0.5)
+        ax = axfr_stream(rng, chain[-1])
+        tcp_ix = msgs_of(split(ix, rand_cuts(rng, len(ix))), IXFR)
+        tcp_ax = msgs_of(split(ax, rand_cuts(rng, len(ax))), rdt)
+        last_unsigned = kr and rng.random() < 0.25
+        mode = 0 if last_unsigned else rng.choice([0, 1, 1, 2])
+        def flags(k):
+            return None if not last_unsigned else [1] * (k - 1) + [0]
+        tt = [[s0, sg(tcp_ix, flags(len(tcp_ix)))], [None, sg(tcp_ax, flags(len(tcp_ax)))]]
+        u = rng.random()
+        if u < 0.4:
+            udp_ix, udp_ax, udp_ok = sg(msgs_of([ix], IXFR)), sg(msgs_of([ax], IXFR)), True
+        elif u < 0.8:
+            udp_ix = udp_ax = sg(msgs_of([[soa_rec(chain[-1])]], IXFR))
+            udp_ok = None
+        else:
+            udp_ix, udp_ax, udp_ok = sg(msgs_of([ix[:max(2, len(ix) - 1)]], IXFR)), sg(msgs_of([ax[:max(2, len(ax) - 1)]], IXFR)), False
+        tu = [[s0, udp_ix], [None, udp_ax]]
+        if last_unsigned:
+            exp = MUSTERR
+        elif rdt == AXFR or mode == 0 or udp_ok is True:
+            exp = VALID
+        elif udp_ok is None:
+            exp = VALID if mode == 1 else MUSTERR
+        else:
+            exp = MUSTERR
+        yield "topq", [12, zk, rel, mode, zdump(z0), tu, tt, qser, kr, [exp, zdump(chain[-1])]]
+
+
 def legacy_cases(ctx, rng, n):
     """valid AXFR responses through dns.query.xfr + dns.zone.from_xfr (oracle only)"""
     for _ in range(n):
@@ -1542,7 +1643,8 @@ def cases(ctx):
     yield from refresh_cases(ctx, rng, ctx.n(200, 2500))
     yield from tsig_cases(ctx, rng, ctx.n(60, 600))
     if get_server() is not None:
-        yield from top_cases(ctx, rng, ctx.n(120, 800))
+        yield from top_cases(ctx, rng, ctx.n(100, 800))
+        yield from top_query_cases(ctx, rng, ctx.n(120, 1000))
         yield from legacy_cases(ctx, rng, ctx.n(60, 500))
     else:
         ctx.notes["loopback"] = "no local sockets: dns.query.inbound_xfr / dns.query.xfr socket-level cases skipped"
@@ -1559,7 +1661,7 @@ def oracle(ctx, kind, case, out):
 
     op = case[0]
     if isinstance(out, Err):
-        if op in (1, 2, 6, 8, 9, 11) or out.code >= 900:
+        if op in (1, 2, 6, 8, 9, 11, 12) or out.code >= 900:
             fail("unexpected exception " + out.text)
         return F
     if op == 4:
@@ -1623,10 +1725,10 @@ def oracle(ctx, kind, case, out):
         if out != case[3]:
             fail("dns.zone.from_xfr(dns.query.xfr(...)) of a valid AXFR is not the server's zone", sig="legacy-wrong-zone")
         return F
-    if op == 8:
+    if op in (8, 12):
         code, dump = out
         z0 = case[4]
-        tag, target = case[7]
+        tag, target = case[7] if op == 8 else case[9]
         if code != 0 and dump != z0:
             fail("inbound_xfr raised but the zone is not what it was", sig="top-error-after-apply")
         if tag == VALID and (code != 0 or dump != target):
